@@ -6,13 +6,17 @@ import os
 META = {
     "level": "proof",
     "design_ref": "DESIGN.md section 8, C12; Appendix A 'Glif reader'",
-    "technique": "Coq proof over an executable model of the glif reader on XML event trees (soundness of "
-                 "acceptance w.r.t. a declarative rule predicate, identifier uniqueness across element kinds, "
-                 "format-1 gating and anchor upgrade) + differential correspondence with Glyph::parse_raw",
+    "technique": "Coq proof over an executable model of the glif reader on XML event trees (soundness AND "
+                 "completeness of acceptance w.r.t. a declarative rule predicate outside exactly described surface "
+                 "classes, identifier uniqueness across element kinds, format-1 gating and anchor upgrade) + "
+                 "differential correspondence with Glyph::parse_raw",
     "text": "Kernel-checked theorems over the Gallina model of GlifParser (element dispatch, version guards, "
             "duplicate flags, identifier set, attribute loops, outline builder, object-lib transfer): every "
             "accepted document satisfies the declarative rule predicate glif_ok and the returned glyph "
-            "satisfies glyph_rules, outside the exactly characterised surface classes. The model is tied to "
+            "satisfies glyph_rules (C12_sound), every rule-obeying document is accepted (C12_complete), outside the "
+            "structurally described classes F14/F16/F17, each refuted at full strength by witnesses; the executable "
+            "glif_okb / class predicates are proved to decide the specification and are compared with the "
+            "generator's labels on every case. The model is tied to "
             "the code on every run by parsing generated documents (legal building blocks, one injected rule "
             "violation or surface variation each, both format versions, varied legal XML syntax) with "
             "Glyph::parse_raw and with the model (vm_compute) and comparing error kind / complete returned glyph.",
